@@ -164,6 +164,9 @@ func TestNego(t *testing.T) {
 					do := func(m *wire.Msg, count int) {
 						tag++
 						m.Tag = tag
+						if uint32(len(wire.Encode(m, nd))) > nm {
+							return // a well-behaved client does not send frames above the negotiated msize
+						}
 						c.SendRaw(ch, wire.Encode(m, nd), nil)
 						fr, ok := readOne(c, ch)
 						c.Wait()
@@ -205,14 +208,116 @@ func TestNego(t *testing.T) {
 					do(&wire.Msg{Type: wire.Tstat, Fid: 77}, -1)                                // framework error: unknown fid
 					do(&wire.Msg{Type: wire.Tattach, Fid: 1, Afid: wire.NOFID, Uname: "u"}, -1) // fid already in use (longer text)
 				}
+				// 2b. a second Tversion: first one that must be refused (it may change nothing), then one that is
+				//     accepted and may only lower the msize; stat and error replies must follow the dialect in force
+				if negotiated {
+					tag := uint16(900)
+					again := func(m2 uint32, v2 string) {
+						mm := &wire.Msg{Type: wire.Tversion, Tag: wire.NOTAG, Msize: m2, Version: v2}
+						c.SendRaw(ch, wire.Encode(mm, false), nil)
+						fr, ok := readOne(c, ch)
+						c.Wait()
+						obs := Event{"type": "none", "msize": 0, "version": ""}
+						if !ok {
+							lines = append(lines, Event{"act": "note", "what": "connection closed before the second Tversion was answered"})
+							return
+						}
+						if ok {
+							r, derr := wire.Decode(fr, nd)
+							if derr != nil {
+								r, derr = wire.Decode(fr, !nd)
+							}
+							if derr == nil {
+								obs = Event{"type": wire.TypeName(r.Type), "msize": clampInt(r.Msize), "version": r.Version}
+								if r.Type == wire.Rversion {
+									nm, nd = r.Msize, r.Version == "9P2000.u"
+								}
+							}
+							lines = append(lines, Event{"act": "frame", "size": len(fr), "kind": wire.TypeName(fr[4]), "dialect": "", "count": -1, "data": 0})
+						}
+						lines = append(lines, Event{"act": "version", "m": clampInt(m2), "v": v2, "obs": obs})
+						ch.Dotu = nd
+						// fids do not survive a version message in general; attach afresh, then probe the dialect
+						for _, pm := range []*wire.Msg{{Type: wire.Tattach, Fid: 5, Afid: wire.NOFID, Uname: "u"}, {Type: wire.Tstat, Fid: 5}, {Type: wire.Tstat, Fid: 78}} {
+							tag++
+							pm.Tag = tag
+							if uint32(len(wire.Encode(pm, nd))) > nm {
+								continue
+							}
+							c.SendRaw(ch, wire.Encode(pm, nd), nil)
+							fr, ok := readOne(c, ch)
+							c.Wait()
+							if !ok {
+								return
+							}
+							lines = append(lines, Event{"act": "frame", "size": len(fr), "kind": wire.TypeName(fr[4]), "dialect": dialectOf(fr), "count": -1, "data": 0})
+							frames++
+						}
+						c.SendRaw(ch, wire.Encode(&wire.Msg{Type: wire.Tclunk, Tag: tag + 1, Fid: 5}, nd), nil)
+						readOne(c, ch)
+						c.Wait()
+						tag++
+					}
+					other := "9P2000"
+					if !nd {
+						other = "9P2000.u"
+					}
+					want = 0
+					again(23, other) // refused: dialect and msize stay
+					again(nm, other) // accepted: same msize, possibly another dialect
+					if nm > 64 {
+						again(nm/2, nc.V) // accepted: lower msize
+					}
+				}
 				c.Close(ch)
+				// 2c. a complete, well-formed frame larger than the negotiated msize, in ONE transport write: it must
+				//     not be executed
+				if negotiated && nm < 60000 {
+					hc, okv, m3, d3 := session()
+					if okv {
+						lines = append(lines, Event{"act": "session", "msize": clampInt(m3), "dotu": d3})
+						big := &wire.Msg{Type: wire.Tattach, Tag: 1, Fid: 9, Afid: wire.NOFID, Uname: strings.Repeat("u", int(m3)), Aname: ""}
+						bb := wire.Encode(big, d3)
+						ncalls := len(c.Events)
+						c.SendRaw(hc, bb, nil)
+						c.Wait()
+						res := make(chan error, 1)
+						go func() {
+							var one [1]byte
+							_, e := hc.cli.Read(one[:])
+							res <- e
+						}()
+						c.Wait()
+						obs := "accepted"
+						select {
+						case e := <-res:
+							if e != nil {
+								obs = "dropped"
+							} else {
+								obs = "replied"
+							}
+						default:
+						}
+						c.mu.Lock()
+						for _, e := range c.Events[ncalls:] {
+							if e["ev"] == "call" {
+								obs = "executed"
+							}
+						}
+						c.mu.Unlock()
+						lines = append(lines, Event{"act": "header", "s": len(bb), "obs": obs})
+					}
+					c.Close(hc)
+					c.Wait()
+				}
 				// 3. announced frame sizes, each on a fresh negotiated connection
 				for _, s := range nc.Hdr {
-					hc, okv, _, _ := session()
+					hc, okv, m4, d4 := session()
 					if !okv {
 						c.Close(hc)
 						continue
 					}
+					lines = append(lines, Event{"act": "session", "msize": clampInt(m4), "dotu": d4})
 					hdr := []byte{byte(s), byte(s >> 8), byte(s >> 16), byte(s >> 24), wire.Tstat}
 					if s < 7 {
 						hdr = append(hdr, 1, 0) // a complete header announcing less than a header
